@@ -37,6 +37,7 @@ def mk_clo(spec):
     cls = getattr(C, full if (_FLAG[0] // 2) % 2 else kind.upper())
     # the flag as user code produces it: a Python bool, or the numpy.bool_ that a comparison / np.any / np.all returns (alternating, deterministic)
     _FLAG[0] += 1
+    if not hc and _FLAG[0] % 3 == 0: return cls()          # the documented default (no hard-core rule) by not passing the flag at all
     return cls(apply_hard_core=(bool(hc) if _FLAG[0] % 2 else np.bool_(bool(hc))))
 _FLAG = [0]
 
